@@ -11,7 +11,7 @@ Definition rows_below (cr : rows) (n : N) : Prop := forall i r, row_get i cr = S
 
 (* GUARDED: with autoflush enabled (session flag on, not inside no_autoflush, no autoflush=False option on an
    ORM statement, not inside a flush) every entry point - ORM select, column select, count, Core select,
-   scalars, legacy Query, get, many-to-one lazy load, collection load, refresh - returns exactly what it
+   scalars, scalar (ORM / Core / text()), execute(text()), legacy Query, get, many-to-one lazy load, collection load, refresh - returns exactly what it
    returns after an explicit flush.  [guardq]: lazy / collection loads are issued on a persistent object,
    get does not hit an object marked deleted, refresh is issued on an object without changes of its own. *)
 Theorem c47_autoflush_equiv_explicit_flush_guarded : forall pr cr af nc0 np0 ops, rows_below cr nc0 ->
@@ -43,7 +43,7 @@ Print Assumptions c47_no_load_emitted_for_pending_object.
 (* the statement-executing entry points run on the flushed state: the query itself is evaluated exactly as
    with autoflush off on [flush s] *)
 Theorem c47_query_runs_on_flushed_state : forall k m a s, enabled k m s = true ->
-  match k with SelEnt | SelCol | Count | Core | Scalars | Legacy => True | _ => False end ->
+  match k with SelEnt | SelCol | Count | Core | Scalars | Legacy | ScalarCore | ScalarText | ExecText | ScalarOrm | ScalarsCore => True | _ => False end ->
   exec k m a s = exec k MNoAutoflushBlock a (flush s).
 Proof.
   intros k m a s E K. destruct k; try contradiction; unfold exec, autoflush_then; rewrite E; reflexivity.
@@ -99,7 +99,7 @@ Definition ex_s : st :=
   run [Query Get MDefault 1; Query Get MDefault 2; Query GetP MDefault 1; SetVal 1 25; AddC 15 1; SetPid 2 1]
       (init [1%N] [(1%N, (10%Z, 1%N)); (2%N, (20%Z, 0%N))] true 3 2).
 Example c47_ex_guard : forallb (fun k => enabled k MDefault ex_s && guardq k 1 ex_s)
-  [SelEnt; SelCol; Count; Core; LazyP; Children; GetP; Legacy; Scalars] = true /\ guardq Get 7 ex_s = true.
+  [SelEnt; SelCol; Count; Core; LazyP; Children; GetP; Legacy; Scalars; ScalarCore; ScalarText; ExecText; ScalarOrm; ScalarsCore] = true /\ guardq Get 7 ex_s = true.
 Proof. vm_compute. split; reflexivity. Qed.
 Example c47_ex_sees_pending :
   snd (exec SelCol MDefault 1 ex_s) = [[1; 25]; [2; 20]; [3; 15]]%Z /\
